@@ -39,3 +39,10 @@ Theorem C06_subslot : forall p, wf p -> forall t f e, sleaf_dates (sschedule p) 
   (f <= e)%Z /\ (s_mile (stask_of p t) = true -> f = e).
 Proof. exact subslot_frame. Qed.
 Print Assumptions C06_subslot.
+
+(* ---- second granularity, teams with limits (Model/SubSlotTeam.v): start <= end, a milestone has start = end *)
+Require Import SP.Model.SubSlotTeam SP.Proofs.SubSlotTeamProofs SP.Proofs.SubSlotTeamDates.
+Theorem C06_subslot_teams : forall p, twf p -> forall t f e, sleaf_dates (tschedule p) t = Some (f, e) ->
+  (f <= e)%Z /\ (tt_mile (ttask_of p t) = true -> f = e).
+Proof. exact team_frame. Qed.
+Print Assumptions C06_subslot_teams.
